@@ -9,7 +9,8 @@ Variable md : mode.
 Definition Inv (s : st) : Prop :=
   closed s = true \/
   ( closed s = false /\
-    (dial s = true -> q s = 0 /\ wadded s = true /\ reg s = true /\ mout s = true /\ owed s = 0 /\ pw s <> WConn) /\
+    (dial s = true -> q s = 0 /\ wadded s = true /\ reg s = true /\ mout s = true /\ owed s = 0 /\ pw s <> WConn /\
+                      (prd s = true -> pw s = WOut)) /\
     (pw s = WConn -> wadded s = true /\ mout s = true /\ owed s = 0 /\ dial s = false) /\
     (0 < q s -> wadded s = true) /\
     match md with
@@ -23,11 +24,12 @@ Definition Inv (s : st) : Prop :=
        | _ => (room s = 0 -> nospace s = true) /\ (0 < room s -> eout s = true \/ pw s = WOut)
        end) /\
     (reg s = true ->
-       match md with LT => True | ET => mout s = true | ETOS => armed s = true \/ 0 < owed s \/ pw s <> WNone end) /\
+       match md with LT => True | ET => mout s = true | ETOS => armed s = true \/ 0 < owed s \/ pw s <> WNone \/ prd s = true end) /\
     (reg s = false -> 0 < q s -> room s = 0 -> nospace s = true) /\
     (md <> ETOS -> owed s = 0) /\
     (reg s = false -> owed s = 0) /\
-    (pw s <> WNone -> reg s = true) ).
+    (pw s <> WNone -> reg s = true) /\
+    (prd s = true -> reg s = true) ).
 
 End I.
 
@@ -74,7 +76,7 @@ Ltac fin :=
   try discriminate; try congruence; try lia; try tauto;
   try (match goal with H : _ && _ = false |- _ => apply andb_false_iff in H; destruct H end;
        boolprop; try congruence; try lia; try tauto);
-  try (right; right; discriminate); try (right; discriminate);
+  try (right; right; discriminate); try (right; discriminate); try (right; right; left; discriminate);
   try (match goal with H : _ \/ _ |- _ => solve [destruct H; try congruence; try lia; try tauto] end);
   try (match goal with H : ?x <> WNone -> _ |- _ => destruct x eqn:?; try congruence; try tauto;
          try solve [exfalso; assert (HH : WConn <> WNone) by discriminate; specialize (H HH); congruence] end);
@@ -82,29 +84,34 @@ Ltac fin :=
 
 Ltac unfold_all :=
   unfold step, flush, release, wtail, modWrite, resetRead, rearm, pmod, kadd, kctl, ksend, kpeer, deliverable_out, is_et, is_os,
-         set_q, set_wadded, set_pw, set_owed, set_dial.
+         set_q, set_wadded, set_pw, set_owed, set_dial, set_prd.
 
-Ltac simp_proj := cbn [q wadded closed dial room nospace reg mout armed eout pw owed sent fst snd].
+Ltac simp_proj := cbn [q wadded closed dial room nospace reg mout armed eout pw owed prd sent fst snd].
 
-Ltac simp_proj_all := cbn [q wadded closed dial room nospace reg mout armed eout pw owed sent fst snd] in *.
+Ltac simp_proj_all := cbn [q wadded closed dial room nospace reg mout armed eout pw owed prd sent fst snd] in *.
 
 Lemma flush_closed md s : closed s = true -> flush md s = s.
 Proof. intros H. unfold flush. now rewrite H. Qed.
 Lemma resetRead_closed md s : closed s = true -> resetRead md s = s.
 Proof. intros H. unfold resetRead. now rewrite H. Qed.
 
+Lemma release_closed md s : closed (release md s) = closed s.
+Proof. unfold release, set_pw, set_owed. destruct (is_os md && negb (prd s)); reflexivity. Qed.
+
 (* a closed connection stays closed *)
 Lemma closed_stays md s a : closed s = true -> closed (step md s a) = true.
 Proof.
   intros H. destruct a; cbn [step]; rewrite ?H; cbn [orb andb negb]; auto.
-  - destruct (pw s); auto. rewrite flush_closed; unfold release, set_pw, set_owed; destruct (is_os md); simp_proj; auto.
-  - destruct (pw s); auto. unfold release, set_pw, set_owed. destruct (is_os md); simp_proj;
-      match goal with |- context[if ?b then _ else _] => destruct b end; try rewrite resetRead_closed; simp_proj; auto.
-  - unfold rearm, set_owed. destruct (owed s); auto. destruct md; simp_proj; rewrite ?H; auto.
+  - destruct (pw s); auto. rewrite flush_closed; rewrite release_closed; auto.
+  - destruct (pw s); auto.
+    match goal with |- context[if ?b then _ else _] => destruct b end; try rewrite resetRead_closed; rewrite release_closed; auto.
+  - destruct (pw s); auto. unfold set_prd, set_owed.
+    repeat match goal with |- context[if ?b then _ else _] => destruct b end; simp_proj; auto.
+  - unfold rearm, set_owed, set_wadded. destruct (owed s); auto. destruct md; simp_proj; rewrite ?H; auto.
 Qed.
 
 Ltac start :=
-  intros [Hc | (Hc & HA & HB & H1 & H5 & H2 & H3 & H4 & H6 & H8 & H7)];
+  intros [Hc | (Hc & HA & HB & H1 & H5 & H2 & H3 & H4 & H6 & H8 & H7 & H9)];
   [ left; apply closed_stays; exact Hc | ].
 
 Ltac pre_rw :=
@@ -122,7 +129,7 @@ Ltac go :=
   right; simp_proj; (repeat split; intros; fin).
 
 Ltac start' :=
-  intros [Hc | (Hc & HA & HB & H1 & H5 & H2 & H3 & H4 & H6 & H8 & H7)].
+  intros [Hc | (Hc & HA & HB & H1 & H5 & H2 & H3 & H4 & H6 & H8 & H7 & H9)].
 
 (* like go, for a goal in which the step has already been unfolded as far as wanted *)
 Ltac go2 :=
